@@ -172,6 +172,14 @@ def execute(ctx, case):
     k = int(d.sum())
     C(d.shape == (nn,) and set(np.unique(d).tolist()) <= {0, 1}, "Bernoulli non-random sample: wrong shape or values", "data-bern-shape", p=p, n=nn)
     C(k <= nn * p * (1 + 1e-12) + 1e-9 and k > nn * p - 1 - 1e-9, "Bernoulli non-random sample: successes != floor(n*p)", "data-bern-count", p=p, n=nn, k=k)
+    if case["_seed"] % 250 == 0:
+        # large draws with a rate close to (but not at) a small-denominator fraction, or a rare-event rate: floor(n*p) exactly
+        from fractions import Fraction
+        for pb, nb in ((3.5e-7, 10 ** 7), (0.5000002, 10 ** 7), (1.0 / 3 + 1e-7, 3 * 10 ** 6), (1 - 3.5e-7, 10 ** 7), (float(case["u"][0]), 2 * 10 ** 6)):
+            kb = int(BernoulliDataset(p=pb).sample(nb, random=False, rng=np.random.default_rng(3)).sum())
+            ex = Fraction(pb) * nb
+            C(abs(kb - math.floor(ex)) <= (1 if min(ex - math.floor(ex), math.ceil(ex) - ex) < Fraction(1, 10 ** 6) else 0),
+              "Bernoulli non-random sample (large n): successes != floor(n*p)", "data-bern-count-large", p=pb, n=nb, k=kb, exact=float(ex))
     dr = BernoulliDataset(p=p, n=nn).sample(rng=np.random.default_rng(2))
     C(dr.shape == (nn,) and set(np.unique(dr).tolist()) <= {0, 1} and (p not in (0.0, 1.0) or int(dr.sum()) == int(p * nn)), "Bernoulli random sample: wrong shape/values", "data-bern-random", p=p, n=nn)
     # ---- correlated pair --------------------------------------------------------------------------------------
